@@ -2,7 +2,8 @@
    Property theorems only.  `compute_fees`, `compute_fees_saturating`, `max_htlc_from_capacity` are
    GENERATED from routing/router.rs on every run (Generated/RouterFees.lean); `recompute` mirrors
    PaymentPath::update_value_and_recompute_fees (Model/RouteFees.lean, tied by the `c16fees`
-   differential through a hook that runs the real function); `RouteOK` / `routeValid` are the
+   differential through a hook that runs the real function; the
+   function was repaired in /repo commit 2ea5edc after this vertical found KF-C16-1); `RouteOK` / `routeValid` are the
    specification and the checker the driver runs on every route the real `find_route` returns
    (Model/RouteValid.lean).  The router's search is not modelled (translation validation). -/
 import LdkModel.Proofs.Route
@@ -106,26 +107,25 @@ theorem compute_fees_saturating_agrees (a b p : Nat) :
 
 example : compute_fees_saturating (2 ^ 63) 5 2 = U64_MAX := by decide
 
-/-! ## the fee recurrence (update_value_and_recompute_fees) -/
+/-! ## the fee recurrence (update_value_and_recompute_fees, as repaired in /repo commit 2ea5edc) -/
 
 /-- For every hop list and value, after the recurrence (`A` = the HTLC amount over each hop as the
-    resulting `fee_msat`s encode it, `E = ret - value` = what the final hop was raised by):
-    one `fee_msat` per hop; every hop carries at least its `htlc_minimum_msat`; every forwarding
-    node's margin covers `compute_fees` of the amount it forwards LESS `E` (exactly the amount for
-    the final hop); the return value is the value delivered, at least `value`; and the first hop
-    carries the delivered value plus all fees.
-    NOTE the `E`: with a final-hop raise the code computes the upstream fees on amounts that do not
-    include the raise — see `final_raise_underpays` and `recompute_fees_margins_partial`. -/
+    resulting `fee_msat`s encode it): one `fee_msat` per hop; every hop carries at least its
+    `htlc_minimum_msat`; EVERY forwarding node's margin covers `compute_fees` of the amount it
+    actually forwards (also after a final-hop raise); the amounts the code computed the fees on are
+    exactly the amounts the route encodes; the return value is the value delivered by the final hop
+    and at least `value`; the first hop carries the sum of all `fee_msat`s (delivered value + fees). -/
 theorem recompute_fees_sound (value : Nat) (hops : List FeeHop) (res : Result)
     (h : recompute value hops = some res) :
     res.fees.length = hops.length ∧
     MinsOK hops (htlcAmounts res.fees) ∧
-    MarginsOK (res.ret - value) hops (htlcAmounts res.fees) ∧
+    MarginsOK hops (htlcAmounts res.fees) ∧
+    res.amts = htlcAmounts res.fees ∧
     value ≤ res.ret ∧
     (hops ≠ [] → res.fees.getLast? = some res.ret) ∧
     (htlcAmounts res.fees).headD 0 = res.fees.sum := by
   have inv := recompute_inv value hops res h
-  exact ⟨inv.len, inv.mins, inv.margins, inv.retGe, inv.last, htlcAmounts_head_eq_sum _⟩
+  exact ⟨inv.len, inv.mins, inv.margins, inv.tracked, inv.retGe, inv.last, htlcAmounts_head_eq_sum _⟩
 
 def exHops : List FeeHop :=
   [ { base := 1000, prop := 100, htlcMin := 1 }, { base := 7, prop := 10000, htlcMin := 150000 },
@@ -133,46 +133,29 @@ def exHops : List FeeHop :=
 -- 100000 msat over three hops: the middle hop is raised to its minimum (150000), booked as fee
 example : recompute 100000 exHops = some { fees := [1507, 50000, 100000], amts := [151507, 150000, 100000], ret := 100000 } := by decide
 example : htlcAmounts [1507, 50000, 100000] = [151507, 150000, 100000] := by decide
-
-/-- Without a final-hop raise (`value` at least the final hop's minimum) every forwarding node is paid
-    at least its policy fee on the amount it actually forwards, and exactly `value` is delivered.
-    PARTIAL: the hypothesis `hv` is needed — see `final_raise_underpays`. -/
-theorem recompute_fees_margins_partial (value : Nat) (hops : List FeeHop) (res : Result) (l : FeeHop)
-    (h : recompute value hops = some res) (hl : hops.getLast? = some l) (hv : l.htlcMin ≤ value) :
-    MarginsOK 0 hops (htlcAmounts res.fees) ∧ res.ret = value := by
-  have inv := recompute_inv value hops res h
-  have hret : res.ret = value := by have := inv.lastMin l hl; omega
-  have hm := inv.margins
-  rw [hret, Nat.sub_self] at hm
-  exact ⟨hm, hret⟩
-
-example : MarginsOK 0 exHops (htlcAmounts [1507, 50000, 100000]) := by
+example : MarginsOK exHops (htlcAmounts [1507, 50000, 100000]) := by
   refine ⟨⟨1507, by decide, by decide⟩, ⟨110, by decide, by decide⟩, trivial⟩
 
-/-- With a final-hop raise the property's fee clause can FAIL on the function's output: 1000 msat
-    over three hops whose final hop has `htlc_minimum_msat = 2000`; the middle node (10 % fee) forwards
-    2010 msat but is paid 101 msat instead of 201 (its fee was computed on 1010). -/
-theorem final_raise_underpays :
-    ∃ (value : Nat) (hops : List FeeHop) (res : Result), recompute value hops = some res ∧
-      ¬ MarginsOK 0 hops (htlcAmounts res.fees) := by
-  refine ⟨1000, [⟨0, 0, 0⟩, ⟨0, 100000, 0⟩, ⟨10, 0, 2000⟩], ⟨[101, 10, 2000], [1111, 1010, 2000], 2000⟩, by decide, ?_⟩
-  intro hm
-  obtain ⟨⟨f, hf, hle⟩, _⟩ := hm
-  have h201 : compute_fees (2010 - 0) 0 100000 = some 201 := by decide
-  simp only [htlcAmounts, List.headD_cons, List.headD_nil, List.isEmpty_cons, Bool.false_eq_true, if_false] at hf hle
-  rw [h201] at hf
-  cases hf
-  omega
+/-- Regression for finding KF-C16-1 (repaired by /repo 2ea5edc): 1000 msat over three hops whose final
+    hop has `htlc_minimum_msat = 2000`. The final hop is raised to 2000, the middle node (10 % fee)
+    forwards 2010 msat and is now paid its full policy fee 201 (before the repair: 101). -/
+theorem final_raise_pays_policy_fee :
+    recompute 1000 [⟨0, 0, 0⟩, ⟨0, 100000, 0⟩, ⟨10, 0, 2000⟩] =
+      some { fees := [201, 10, 2000], amts := [2211, 2010, 2000], ret := 2000 } ∧
+    compute_fees 2010 0 100000 = some 201 ∧
+    MarginsOK [⟨0, 0, 0⟩, ⟨0, 100000, 0⟩, ⟨10, 0, 2000⟩] (htlcAmounts [201, 10, 2000]) := by
+  refine ⟨by decide, by decide, ⟨201, by decide, by decide⟩, ⟨10, by decide, by decide⟩, trivial⟩
+
+example : htlcAmounts [201, 10, 2000] = [2211, 2010, 2000] := by decide
 
 /-- Raises are reported: the value returned (and delivered by the final hop) is the larger of `value`
     and the final hop's minimum — callers add the surplus to the route's total fees — and every other
-    amount is EXACTLY the larger of the hop's own minimum and what the next hop needs plus its policy
-    fee (computed on the tracked amount), so an amount raised to a minimum sits inside that hop's
-    `fee_msat`. -/
+    amount is EXACTLY the larger of the hop's own minimum and what the next hop receives plus its
+    policy fee, so an amount raised to a minimum sits inside that hop's `fee_msat`. -/
 theorem raise_is_reported_as_fee (value : Nat) (hops : List FeeHop) (res : Result)
     (h : recompute value hops = some res) :
     (∀ l, hops.getLast? = some l → res.ret = max value l.htlcMin) ∧
-    ExactOK (res.ret - value) hops (htlcAmounts res.fees) := by
+    ExactOK hops (htlcAmounts res.fees) := by
   have inv := recompute_inv value hops res h
   exact ⟨inv.lastMin, inv.exact⟩
 
